@@ -44,7 +44,7 @@ META = {
             "and reaches a date > 0; distinct by (program, options)",
     "assumptions": ["a trace line is judged only through the field names announced by the file's own header",
                     "container 0 / type 0 are the implicit Paje root"],
-    "ready": True,
+    "ready": False,
 }
 
 MPI_PLATFORMS = [
@@ -121,7 +121,8 @@ class Runner:
     def path(self, tag):
         with self.lock:
             self.n += 1
-        return os.path.join(self.tmp, "%s-%d-%s.trace" % (tag, os.getpid(), hashlib.sha1(("%s/%d" % (tag, self.n)).encode()).hexdigest()[:10]))
+            n = self.n      # read under the lock: two worker threads must never get the same file name (their traces would interleave)
+        return os.path.join(self.tmp, "%s-%d-%s.trace" % (tag, os.getpid(), hashlib.sha1(("%s/%d" % (tag, n)).encode()).hexdigest()[:10]))
 
     # ---- judge one trace -------------------------------------------------------------------------------------
     def judge(self, kind, witness, res, trace, finished, baseline=None, retry=None):
